@@ -109,10 +109,155 @@ func freshBase(v ssa.Value) bool {
 	return false
 }
 
+// lockExit: the lock state with which a helper returns, and the boolean
+// constants it returns on that exit ("1=T": result #1 is true).
+type lockExit struct {
+	held  int
+	bools string
+}
+
+// lockHelperSummaries finds the functions that hand the mutex to their caller:
+// unexported functions with static callers only that lock spec.mutex and
+// return with it held on some exit (no deferred unlock). Exits with different
+// lock states must be told apart by a boolean constant they return, so that
+// the caller's later test of that boolean selects the right state.
+func lockHelperSummaries(p *core.Program, spec guardSpec, fns []*ssa.Function) map[*ssa.Function][]lockExit {
+	out := map[*ssa.Function][]lockExit{}
+	called := map[*ssa.Function]bool{}
+	escaped := map[*ssa.Function]bool{}
+	for _, fn := range fns {
+		core.Instrs(fn, func(ins ssa.Instruction) {
+			if c, ok := ins.(ssa.CallInstruction); ok {
+				if callee := c.Common().StaticCallee(); callee != nil {
+					called[callee] = true
+				}
+			}
+			for _, op := range ins.Operands(nil) {
+				if *op == nil {
+					continue
+				}
+				if f, ok := (*op).(*ssa.Function); ok {
+					if c, isCall := ins.(ssa.CallInstruction); !isCall || c.Common().Value != *op {
+						escaped[f] = true
+					}
+				}
+			}
+		})
+	}
+	for _, fn := range fns {
+		if fn.Parent() != nil || fn.Blocks == nil || !called[fn] || escaped[fn] {
+			continue
+		}
+		if obj := fn.Object(); obj == nil || obj.Exported() {
+			continue
+		}
+		ops := map[ssa.Instruction]string{}
+		deferred := false
+		core.Instrs(fn, func(ins ssa.Instruction) {
+			c, ok := ins.(ssa.CallInstruction)
+			if !ok {
+				return
+			}
+			if d, isDefer := ins.(*ssa.Defer); isDefer {
+				// defer func() { mu.Unlock() }()
+				if mc, ok := d.Call.Value.(*ssa.MakeClosure); ok {
+					core.Instrs(mc.Fn.(*ssa.Function), func(x ssa.Instruction) {
+						if c2, ok := x.(ssa.CallInstruction); ok && mutexOp(c2, spec) != "" {
+							deferred = true
+						}
+					})
+				}
+			}
+			if op := mutexOp(c, spec); op != "" {
+				if _, isDefer := ins.(*ssa.Defer); isDefer {
+					deferred = true
+				} else {
+					ops[ins] = op
+				}
+			}
+		})
+		if len(ops) == 0 || deferred {
+			continue
+		}
+		type key struct {
+			b    *ssa.BasicBlock
+			held int
+		}
+		seen := map[key]bool{}
+		exits := map[lockExit]bool{}
+		var walk func(b *ssa.BasicBlock, held int)
+		walk = func(b *ssa.BasicBlock, held int) {
+			if seen[key{b, held}] {
+				return
+			}
+			seen[key{b, held}] = true
+			for _, ins := range b.Instrs {
+				switch ops[ins] {
+				case "Lock":
+					held = 2
+				case "RLock":
+					held = 1
+				case "Unlock", "RUnlock":
+					held = 0
+				}
+				if ret, ok := ins.(*ssa.Return); ok {
+					var bs []string
+					for i, v := range ret.Results {
+						if c, isC := v.(*ssa.Const); isC && isBoolType(c.Type()) {
+							if constBool(c) {
+								bs = append(bs, fmtInt(int64(i))+"=T")
+							} else {
+								bs = append(bs, fmtInt(int64(i))+"=F")
+							}
+						}
+					}
+					exits[lockExit{held, strings.Join(bs, ";")}] = true
+				}
+			}
+			for _, succ := range b.Succs {
+				walk(succ, held)
+			}
+		}
+		walk(fn.Blocks[0], 0)
+		handsOff := false
+		var list []lockExit
+		for e := range exits {
+			list = append(list, e)
+			if e.held != 0 {
+				handsOff = true
+			}
+		}
+		if !handsOff {
+			continue
+		}
+		sort.Slice(list, func(i, j int) bool {
+			if list[i].held != list[j].held {
+				return list[i].held < list[j].held
+			}
+			return list[i].bools < list[j].bools
+		})
+		// exits with different lock states must differ in a returned boolean
+		ok := true
+		for i := range list {
+			for j := i + 1; j < len(list); j++ {
+				if list[i].held != list[j].held && (list[i].bools == "" || list[j].bools == "" || list[i].bools == list[j].bools) {
+					ok = false
+				}
+			}
+		}
+		if ok {
+			out[fn] = list
+		}
+	}
+	return out
+}
+
 // runLockset checks one spec over the given functions.
 func runLockset(p *core.Program, r *core.Report, rule string, spec guardSpec, fns []*ssa.Function) {
+	helpers := lockHelperSummaries(p, spec, fns)
 	for _, fn := range fns {
 		evs := map[ssa.Instruction][]lockEvent{}
+		helperCalls := map[ssa.Instruction]*ssa.Function{}
 		lockOps := map[ssa.Instruction]string{}
 		deferUnlock := false
 		relevant := false
@@ -219,6 +364,12 @@ func runLockset(p *core.Program, r *core.Report, rule string, spec guardSpec, fn
 							})
 						}
 					}
+					if callee := v.Common().StaticCallee(); callee != nil && helpers[callee] != nil {
+						if _, isDefer := ins.(*ssa.Defer); !isDefer {
+							helperCalls[ins] = callee
+							hasLockOp = true
+						}
+					}
 					op := mutexOp(v, spec)
 					if op == "" {
 						continue
@@ -238,8 +389,9 @@ func runLockset(p *core.Program, r *core.Report, rule string, spec guardSpec, fn
 		r.Count(rule+" functions with guarded accesses or lock operations", 1)
 		// path-sensitive walk
 		type key struct {
-			b *ssa.BasicBlock
-			s lockState
+			b     *ssa.BasicBlock
+			start int
+			s     lockState
 		}
 		seen := map[key]bool{}
 		type res struct {
@@ -260,9 +412,21 @@ func runLockset(p *core.Program, r *core.Report, rule string, spec guardSpec, fn
 		}
 		fk := core.FnKey(fn)
 		steps := 0
+		withAssume := func(s lockState, name, val string) lockState {
+			parts := []string{}
+			if s.assume != "" {
+				parts = strings.Split(s.assume, ";")
+			}
+			parts = append(parts, name+"="+val)
+			sort.Strings(parts)
+			s.assume = strings.Join(parts, ";")
+			return s
+		}
 		var walk func(b *ssa.BasicBlock, s lockState)
-		walk = func(b *ssa.BasicBlock, s lockState) {
-			k := key{b, s}
+		var walkFrom func(b *ssa.BasicBlock, start int, s lockState)
+		walk = func(b *ssa.BasicBlock, s lockState) { walkFrom(b, 0, s) }
+		walkFrom = func(b *ssa.BasicBlock, start int, s lockState) {
+			k := key{b, start, s}
 			if seen[k] {
 				return
 			}
@@ -271,7 +435,45 @@ func runLockset(p *core.Program, r *core.Report, rule string, spec guardSpec, fn
 			if steps > 200000 {
 				panic("lockset: state explosion in " + fn.String())
 			}
-			for _, ins := range b.Instrs {
+			for idx := start; idx < len(b.Instrs); idx++ {
+				ins := b.Instrs[idx]
+				if callee, ok := helperCalls[ins]; ok {
+					// a helper that hands the mutex over: continue with each
+					// of its exit states, remembering which returned boolean
+					// goes with it
+					exits := helpers[callee]
+					if len(exits) == 1 {
+						s.held = exits[0].held
+					} else {
+						call := ins.(ssa.Value)
+						for _, e := range exits {
+							ns := s
+							ns.held = e.held
+							for _, kv := range strings.Split(e.bools, ";") {
+								if kv == "" {
+									continue
+								}
+								i, _ := parseInt(kv[:strings.Index(kv, "=")])
+								val := kv[strings.Index(kv, "=")+1:]
+								name := ""
+								if tup, isTuple := call.Type().(*types.Tuple); isTuple && tup.Len() > 1 {
+									for _, ref := range *call.Referrers() {
+										if ex, ok := ref.(*ssa.Extract); ok && int64(ex.Index) == i {
+											name = ex.Name()
+										}
+									}
+								} else if i == 0 {
+									name = call.Name()
+								}
+								if name != "" {
+									ns = withAssume(ns, name, val)
+								}
+							}
+							walkFrom(b, idx+1, ns)
+						}
+						return
+					}
+				}
 				if op, ok := lockOps[ins]; ok {
 					switch op {
 					case "Lock":
@@ -306,7 +508,9 @@ func runLockset(p *core.Program, r *core.Report, rule string, spec guardSpec, fn
 					}
 				}
 				if _, isRet := ins.(*ssa.Return); isRet {
-					if s.held != 0 && !s.deferred {
+					if helpers[fn] != nil {
+						record(fk+" returns holding "+spec.mutex, ins, false, "")
+					} else if s.held != 0 && !s.deferred {
 						record(fk+" returns holding "+spec.mutex, ins, true, "a path returns with the mutex still held and no deferred unlock: the next locker blocks forever")
 					} else if hasLockOp {
 						record(fk+" returns holding "+spec.mutex, ins, false, "")
@@ -324,8 +528,8 @@ func runLockset(p *core.Program, r *core.Report, rule string, spec guardSpec, fn
 				}
 				_, isConst := cond.(*ssa.Const)
 				name := cond.Name()
-				track := !isConst && condUses[cond] >= 2
 				has := func(val string) bool { return strings.Contains(";"+s.assume+";", ";"+name+"="+val+";") }
+				track := !isConst && (condUses[cond] >= 2 || has("T") || has("F"))
 				add := func(val string) lockState {
 					if !track {
 						return s
